@@ -1224,6 +1224,13 @@ fn get_ns_idx_by_prefix(
     prefix: &str,
     doc: &Document<'_>,
 ) -> Result<Option<NamespaceIdx>> {
+    // The prefix 'xml' is by definition bound to the namespace name
+    // http://www.w3.org/XML/1998/namespace. This namespace is added
+    // to the document on creation and is always element 0.
+    if prefix == NS_XML_PREFIX {
+        return Ok(Some(NamespaceIdx(0)));
+    }
+
     // Prefix CAN be empty when the default namespace was defined.
     //
     // Example:
